@@ -68,12 +68,21 @@ def mutations(rng, base):
         s = base.clone(); s.cal.links = s.cal.links[1:]; s.relink()
         if s.cal.links:
             out.append(("INT-05", s))
+        # surplus links at the leaf end: the time budget is already used up when they are met
+        s = base.clone(); s.cal.links = [(False, bytes([1]) + rng.randbytes(32)) for _ in range(rng.choice([1, 1, 2]))] + s.cal.links; s.relink()
+        out.append(("INT-05", s))
+        s = base.clone(); s.cal.links = [(True, bytes([1]) + rng.randbytes(32))] + s.cal.links; s.relink()
+        out.append(("INT-05", s))
     if base.pub:
         s = base.clone(); s.pub = (s.pub[0] + 1, s.pub[1]); out.append(("INT-07", s))
         s = base.clone(); h = bytearray(s.pub[1]); h[5] ^= 4; s.pub = (s.pub[0], bytes(h)); out.append(("INT-09", s))
+        if base.pub[1][0] == 1:       # imprints that differ in nothing but the algorithm octet (SHA2-256 / SHA3-256 / SM3 digests have one length)
+            s = base.clone(); s.pub = (s.pub[0], bytes([rng.choice([8, 0x0b])]) + s.pub[1][1:]); out.append(("INT-09", s))
     if base.auth:
         s = base.clone(); s.auth = (s.auth[0] - 1, s.auth[1]); out.append(("INT-06", s))
         s = base.clone(); h = bytearray(s.auth[1]); h[5] ^= 4; s.auth = (s.auth[0], bytes(h)); out.append(("INT-08", s))
+        if base.auth[1][0] == 1:
+            s = base.clone(); s.auth = (s.auth[0], bytes([rng.choice([8, 0x0b])]) + s.auth[1][1:]); out.append(("INT-08", s))
     # INT-10: a chain's own index element is not its shape (lower chains follow, so continuation still holds)
     s = base.clone(); k = rng.randrange(n); pos = len(s.chains[k].index) - 1
     newv = s.chains[k].index[pos] ^ rng.choice([1, 2, 1 << 10])
@@ -107,7 +116,8 @@ def mutations(rng, base):
             m = tlv(0x1e, b"\x01\x01", nc=rng.choice([0, 1]), fwd=0) + cid
             if len(m) % 2: m = tlv(0x1e, b"\x01", nc=0, fwd=rng.choice([0, 1])) + cid
         elif bad == "pad-value":
-            m = tlv(0x1e, rng.choice([b"\x00", b"\x01\x00", b"\x02", b"", b"\x01\x01\x01"]), nc=1, fwd=1) + cid
+            m = tlv(0x1e, rng.choice([b"\x00", b"\x01\x00", b"\x02", b"", b"\x01\x01\x01", b"\x02\x01", b"\x00\x01", b"\xff\x01"]), nc=1, fwd=1) + cid
+            if len(m) % 2: m = m[:len(m) - len(cid)] + tlv(0x01, b"client2\x00")      # even length: the padding's value alone is wrong
         elif bad == "odd":
             m = tlv(0x1e, b"\x01", nc=1, fwd=1) + cid
             if len(m) % 2 == 0: m = tlv(0x1e, b"\x01\x01", nc=1, fwd=1) + cid
